@@ -1368,7 +1368,10 @@ func c24RunLaw(d *c24Driver, c c24LawCase) (verifkit.Outcome, error) {
 	}
 
 	// path 2: the validators named by the property, on bare structures
-	if goInst(instName) {
+	// (a snap the daemon accepts: valid snap name and valid instance name; a
+	// name with a defect such as "aa_a" is no snap name although it reads as
+	// an instance name)
+	if goSnap(c.Name) && goInst(instName) {
 		si := &snap.Info{SuggestedName: c.Name, InstanceKey: c.Key}
 		for _, a := range c.Apps {
 			app := &snap.AppInfo{Snap: si, Name: a, Command: "bin/x"}
